@@ -98,7 +98,8 @@ func c17Print(t *rapid.T, recs []ChartConfig) (text string, multiline bool) {
 	var sb strings.Builder
 	comment := func() string {
 		if rapid.IntRange(0, 3).Draw(t, "comment") == 0 {
-			return " # " + rapid.SampledFrom([]string{"note", "TODO(golang/go#1): x", "{ not a brace }", "---", "title: fake"}).Draw(t, "ctext")
+			// (a comment starts at the '#' wherever it stands: after blanks or directly after the value, followed by a blank or not)
+			return rapid.SampledFrom([]string{" # ", " # ", "#", "# ", " #", "\t#"}).Draw(t, "cstart") + rapid.SampledFrom([]string{"note", "TODO(golang/go#1): x", "{ not a brace }", "---", "title: fake"}).Draw(t, "ctext")
 		}
 		return ""
 	}
